@@ -12,6 +12,7 @@ import (
 
 	"github.com/osteele/liquid"
 	"github.com/osteele/liquid/render"
+	"verif.local/simrt"
 )
 
 // EngCfg is the engine configuration of a case.
@@ -109,9 +110,14 @@ func repoFrame() string {
 	}
 }
 
+// stepFuel bounds every guarded library call (a typical render needs 10^3..10^4 steps).
+const stepFuel = 4_000_000
+
 // guard runs f, converting a panic into a Res.
 func guard(f func() Res) (res Res) {
+	simrt.Fuel = stepFuel
 	defer func() {
+		simrt.Fuel = 0
 		if r := recover(); r != nil {
 			msg := fmt.Sprint(r)
 			if i := strings.Index(msg, "\nOriginal stacktrace"); i >= 0 {
